@@ -12,7 +12,7 @@ PROPERTY = 'C01'
 META = {
     'level': 'exploration',
     'technique': 'reference-model runtime monitor: real produce/parse of every grammar element compared with an independent struct-only encoder/decoder on boundary-biased generated field values',
-    'text': 'For every element of the grammar (14 typed scalars, SSTRING/STRING, IPADDR/IFACEADDRS, EPATH in its plain/padded/single/route forms with every segment kind and width, '
+    'text': 'Multiple Service Packet replies carry 1-3 extended status words with non-zero general statuses (incl. 0x1E with the bundled replies), bundle requests also use wider spellings of the router path. For every element of the grammar (14 typed scalars, SSTRING/STRING, IPADDR/IFACEADDRS, EPATH in its plain/padded/single/route forms with every segment kind and width, '
             'status with extended words, typed data, every Logix / Object / Message Router (bundle) / Connection Manager request and reply, the Unconnected Send wrapper, CPF with every item '
             'type, register / send_data / list replies / legacy, and whole encapsulated frames) seeded boundary-biased field dictionaries are produced by the real code and by an independent '
             'encoder; the bytes must be equal, the real parser must recover every encoded field, re-producing the parse must regenerate the bytes, the independent decoder must agree, and a message object edited in place after it was produced once must encode exactly like a fresh object with the same values (produce is a function of the current field values). '
